@@ -6,12 +6,18 @@ EXTENDS WordExpand, Json
 CONSTANTS Lo, Hi, Shift, Steps, Pool, Patterns, MaxPop   \* bounds are Lo-Shift .. Hi-Shift
 VARIABLES kind, m, n, st, pre, post, pat, pop, done
 vars == <<kind, m, n, st, pre, post, pat, pop, done>>
-Init == /\ kind \in {"range", "glob"} /\ done = FALSE
+PoolB == { <<"a",".","t">>, <<"b",".","t">>, <<"c",".","m">>, <<"d","/","x","1">>, <<"d","/","y","2">> }
+PatsB == { <<"*",".","{","t",",","m","}">>, <<"{","a",",","b","}","*",".","t">>, <<"d","/","{","x",",","y","}","*">>, <<"{","a",",","c","}",".","*">>,
+           <<"{","*",".","m",",","z","z","}">>, <<"{","a",",","b","}",".","{","t",",","m","}">>, <<"*","{",".","t",",",".","m","}">>, <<"{","d","/","*",",","a","*","}">> }
+Init == /\ kind \in {"range", "glob", "bglob"} /\ done = FALSE
         /\ IF kind = "range"
            THEN m \in (Lo - Shift)..(Hi - Shift) /\ n \in (Lo - Shift)..(Hi - Shift) /\ st \in Steps /\ pre \in {<<>>, <<"x">>} /\ post \in {<<>>, <<"y">>}
                 /\ pat = <<>> /\ pop = {}
-           ELSE m = 0 /\ n = 0 /\ st = 0 /\ pre = <<>> /\ post = <<>>
+           ELSE IF kind = "glob"
+           THEN m = 0 /\ n = 0 /\ st = 0 /\ pre = <<>> /\ post = <<>>
                 /\ pat \in Patterns /\ pop \in {S \in SUBSET Pool : Cardinality(S) <= MaxPop}
+           ELSE m = 0 /\ n = 0 /\ st = 0 /\ pre = <<>> /\ post = <<>>
+                /\ pat \in PatsB /\ pop \in {S \in SUBSET PoolB : Cardinality(S) <= MaxPop}
 Finish == ~done /\ done' = TRUE /\ UNCHANGED <<kind, m, n, st, pre, post, pat, pop>>
 Spec == Init /\ [][Finish]_vars
 \* creating d/x also creates the directory entry d
@@ -19,7 +25,10 @@ Entries == pop \cup {SubSeq(x, 1, LastSlash(x) - 1) : x \in {y \in pop : LastSla
 Nums == NumRange(m, n, IF st = 99 THEN 1 ELSE st)
 Case == IF kind = "range"
         THEN [kind |-> "range", m |-> m, n |-> n, step |-> st, pre |-> pre, post |-> post, nums |-> Nums]
-        ELSE [kind |-> "glob", pat |-> pat, pop |-> pop, matches |-> GlobNames(pat, Entries)]
+        ELSE IF kind = "glob" THEN [kind |-> "glob", pat |-> pat, pop |-> pop, matches |-> GlobNames(pat, Entries)]
+        ELSE \* a brace group and `*` in one word: the group is expanded first, every produced word is then a pattern of its own
+             LET B == BraceExpand(pat) IN
+             [kind |-> "bglob", pat |-> pat, pop |-> pop, parts |-> [k \in 1..Len(B) |-> [w |-> B[k], matches |-> GlobNames(B[k], Entries)]]]
 Emit == done => PrintT(<<"REPLAY", ToJson(Case)>>)
 \* theorems: a range starts at m, is inclusive when the step divides the distance, never passes n
 RangeOK == done /\ kind = "range" => /\ Nums[1] = m
